@@ -41,7 +41,7 @@ Section Rel.
     (forall x, In x S -> eval w eo (EVar x) = eval w et (opt_expr (cx_v c) (EVar x))) /\
     (forall x y, In x S -> opt_expr (cx_v c) (EVar x) = EVar y -> In y S) /\
     (forall z op y k, In z S -> assoc z (cx_b c) = Some (op, y, k) ->
-       In y S /\ ovf op (eval w et (EVar y)) k = false /\
+       In y S /\ chk Add op && ovf op (eval w et (EVar y)) k = false /\
        exists v, rt_binop op (eval w et (EVar y)) k = Val v /\ eval w et (EVar z) = wrap32 v).
 
   Lemma eval_var_lookup en en' x : lookup x en' = lookup x en -> eval w en' (EVar x) = eval w en (EVar x).
@@ -150,7 +150,7 @@ Section Rel.
   (* recording x = y op k for a kept statement *)
   Lemma Rel_bind_b c S eo et x op y k u :
     Rel c S eo et -> In x S -> In y S -> assoc x (cx_b c) = None ->
-    ovf op (eval w et (EVar y)) k = false -> rt_binop op (eval w et (EVar y)) k = Val u ->
+    chk Add op && ovf op (eval w et (EVar y)) k = false -> rt_binop op (eval w et (EVar y)) k = Val u ->
     eval w et (EVar x) = wrap32 u ->
     Rel (bind_b x (op, y, k) c) S eo et.
   Proof.
